@@ -161,6 +161,26 @@ class Check(PropCheck):
             d = self.random_doc(rng)
             d['via'] = 'api' if i % 3 else 'parse'
             yield Case(d, 'random')
+        # the strict lexer against the real tokenizer on richly rendered token sequences (C02's renderer) and on
+        # corrupted variants (on which lexStrict may answer none, never a different token list)
+        from . import c02
+        gen = c02.Check()
+        for i in range(n // 2):
+            text = c02.render(gen.random_tokens(rng), rng.randrange(1, 1 << 30))
+            if i % 3 == 0 and text:
+                chars = list(text)
+                for _ in range(rng.randint(1, 3)):
+                    j = rng.randrange(len(chars))
+                    if rng.random() < 0.5:
+                        del chars[j]
+                    else:
+                        chars.insert(j, rng.choice('<>&"\'=/;#! -'))
+                    if not chars:
+                        break
+                text = ''.join(chars)
+            if 'xxxblank' in text.lower() or '<![' in text:
+                continue
+            yield Case({'via': 'lex', 'text': text}, 'random-lex')
 
     def merge_adjacent_ok(self, forest):
         return forest
@@ -244,11 +264,16 @@ class Check(PropCheck):
         return {'doctype': dt, 'blocks': blocks}
 
     def nontrivial(self, d):
+        if d['via'] == 'lex':
+            return '<' in d['text']
+
         def nt(b):
             return b[0] == 'e' and (b[2] or any(k[0] == 'e' for k in b[4]) or any(nt(k) for k in b[4])) or (b[0] == 't' and '&' in b[1])
         return any(nt(b) for b in d['blocks'])
 
     def features(self, d):
+        if d['via'] == 'lex':
+            return ['via:lex']
         fs = set(['via:' + d['via'], 'doctype' if d['doctype'] else 'no-doctype',
                   'single-root' if (len(d['blocks']) == 1 and d['blocks'][0][0] == 'e') else 'multi-root'])
 
@@ -292,6 +317,11 @@ class Check(PropCheck):
         return sorted(fs)
 
     def shrink(self, d):
+        if d['via'] == 'lex':
+            t = d['text']
+            for i in range(len(t)):
+                yield dict(d, text=t[:i] + t[i + 1:])
+            return
         blocks = d['blocks']
 
         def variants(bs):
@@ -325,6 +355,8 @@ class Check(PropCheck):
         return p
 
     def encode(self, d):
+        if d['via'] == 'lex':
+            return sx('lex', enc(d['text']))
         dd = d
         if d['via'] == 'parse':
             # the model is given the tree the library obtained from the parse (its own check of that parse is the
@@ -341,6 +373,8 @@ class Check(PropCheck):
 
     def impl(self, d):
         import AdvancedHTMLParser as AHP
+        if d['via'] == 'lex':
+            return self._toks(parsing.tokenize(d['text']))
         p = self.doc_of(d)
         html = p.getHTML()
         toks = parsing.tokenize(html)
@@ -356,7 +390,14 @@ class Check(PropCheck):
 
     def compare(self, model_out, impl_out, d):
         if model_out == impl_out:
+            if d['via'] == 'lex':
+                self.lexed = getattr(self, 'lexed', 0) + 1
             return None
+        if d['via'] == 'lex':
+            if model_out == 'nolex':
+                self.lex_none = getattr(self, 'lex_none', 0) + 1
+                return None
+            return 'lexStrict %s, html.parser %s' % (model_out[:300], impl_out[:300])
         try:
             m, i = parse_sx(model_out), parse_sx(impl_out)
         except Exception:
@@ -375,11 +416,14 @@ class Check(PropCheck):
         return None
 
     def extra_evidence(self):
-        return {'serialisations_outside_strict_lexer': getattr(self, 'nolex', 0)}
+        return {'serialisations_outside_strict_lexer': getattr(self, 'nolex', 0),
+                'lexer_stream_agreed': getattr(self, 'lexed', 0), 'lexer_stream_outside_sublanguage': getattr(self, 'lex_none', 0)}
 
     # ---- the property itself on the library ----------------------------------------------------------------------------
     def oracle(self, d):
         import AdvancedHTMLParser as AHP
+        if d['via'] == 'lex':
+            return None
         p = self.doc_of(d)
         root = p.getRoot()
         try:
